@@ -282,6 +282,8 @@ fn count_dims(t: &mut Tally, e: &Env) {
     b("aslr_on_uncontrolled", !e.aslr_off);
     b("stack_pad", e.stack_pad > 0);
     b("locale_tz_term_vars", e.locale.is_some() || e.tz.is_some() || e.term.is_some() || e.no_color || e.columns.is_some());
+    b("home_user_rust_vars", !e.extra_vars.is_empty());
+    b("other_working_directory", e.other_cwd);
     b("native_no_interposer", !e.preload);
 }
 
@@ -346,6 +348,15 @@ pub fn main(args: &Args) {
                     }
                     let env = env_for(seed, ci, r);
                     count_dims(&mut local, &env);
+                    if cmd.kind == "verify-dir" && r % 2 == 1 {
+                        // the same files, created in the opposite order (native readdir order and mtimes change)
+                        let _ = fs::remove_dir_all(&in_dir);
+                        fs::create_dir_all(&in_dir).unwrap();
+                        let mut rev = cmd.clone();
+                        rev.files.reverse();
+                        rev.materialise(&in_dir);
+                        *local.env_dims.entry("inputs_created_in_reverse_order".into()).or_insert(0) += 1;
+                    }
                     let copies = if r == envs { 2 } else { 1 };
                     let mut obs = vec![];
                     if copies == 2 {
